@@ -128,14 +128,14 @@ func c12Gen(g *Gen) {
 		keyLen := Pick(r, []int{16, 17, 24, 31, 32, 32, 32, 33, 48, 64})
 		key := tkKeyOfLen(r, keyLen)
 		fkey := tkKeyOfLen(r, Pick(r, []int{16, 32, 32, 40, 64}))
-		cache0 := Pick(r, []int{0, 1, 4096, 4096})
+		cache0 := Pick(r, []int{0, 4096, 4096}) // several streams share i0/i1: sizes that never evict (eviction order is not C12's business)
 		rh, hk := r.Bool(), r.Bool()
 		id := Pick(r, c12Idents)
 		other := c12Idents[(indexOf(c12Idents, id)+1+r.Intn(2))%3]
 		m := Pick(r, streamMethods)
 		lines := []string{
 			tkInstLine("i0", key, 100000, cache0, false, "w0", rh, hk),
-			tkInstLine("i1", key, 100000, Pick(r, []int{0, 1, 4096}), false, "w1", rh, hk),
+			tkInstLine("i1", key, 100000, Pick(r, []int{0, 4096}), false, "w1", rh, hk),
 			tkInstLine("f0", fkey, 100000, 4096, false, "wf", rh, hk),
 		}
 		if r.Chance(30) {
